@@ -570,14 +570,16 @@ func (sp *ServerPool) doHandle(stdctx stdcontext.Context, spCtx *serverPoolConte
 }
 
 func (sp *ServerPool) buildResponse(spCtx *serverPoolContext) (err error) {
-	body := readers.NewCallbackReader(spCtx.stdResp.Body)
-	spCtx.stdResp.Body = body
-
 	if sp.proxy.compression != nil {
 		if sp.proxy.compression.compress(spCtx.stdReq, spCtx.stdResp) {
 			spCtx.AddTag("gzip")
 		}
 	}
+
+	// collectMetrics expects the body to be this CallbackReader, so it must
+	// be the outermost wrapper.
+	body := readers.NewCallbackReader(spCtx.stdResp.Body)
+	spCtx.stdResp.Body = body
 
 	resp, err := httpprot.NewResponse(spCtx.stdResp)
 	if err != nil {
